@@ -231,13 +231,11 @@ def work(desc):
         out["binops"] = sum(1 for ln in o.trace.split("\n") if ln.startswith("B "))
     if o.timeout:
         out["inconclusive"] = "timeout"
-    elif o.stack_overflow:
-        out["inconclusive"] = "stack overflow"
-    elif o.crashed:
+    elif o.died:
         o2 = core.run_one({"src": r.text, "bin": core.BIN_PLAIN})
-        if o2.crashed:
+        if o2.died:
             first = o.err.decode("utf-8", "replace").split("\n")
-            where = next((l for l in first if "panicked at" in l), "exit %s" % o.code)
+            where = next((l for l in first if "panicked at" in l or "overflowed its stack" in l), "exit %s" % o.code)
             msg = next((l for l in first if l and "panicked at" not in l and not l.startswith("note:")), "")
             out["viol"] = ("crash/" + where.split("panicked at ")[-1].strip().rstrip(":"),
                            "the interpreter crashed (exit %s): %s %s" % (o.code, where.strip(), msg.strip()),
